@@ -852,4 +852,77 @@ def encodeChecked (a : KAlph) (codes : List Nat) : Except Err Nat :=
   else if codes.length ≠ a.k then .error .alphabetError
   else .ok (fuseCodes a.n codes)
 
+/-! ## refusals found by the hypothesis audit (regions the first model abstained on) -/
+
+/-- `MincodeSelector` with a fractional compression factor `num/den` (the documented type is a float):
+`compression < 1` is refused; position selected iff `v < offset + range / (num/den)`, exactly. -/
+def mincodeSelectQ (a : KAlph) (num den : Nat) (p : Perm) (kmers : List Nat) :
+    Except Err (List (Nat × Nat)) :=
+  if den = 0 ∨ num < den then .error .valueError else
+  match p.apply kmers with
+  | .error e => .error e
+  | .ok ord =>
+    .ok (((zipIdx kmers).zip ord).filterMap fun ((i, q), v) =>
+      if (v - p.offset) * (num : Int) < p.range a.size * (den : Int) then some (i, q) else none)
+
+/-- reference ids are stored as `uint32`: the typed argument conversion refuses anything else. -/
+def refIdsOk (rs : List Int) : Bool := rs.all fun r => decide (0 ≤ r ∧ r < 2 ^ 32)
+
+/-- a constructor that would otherwise succeed raises `OverflowError` in its second pass when a
+reference id does not fit `uint32`. -/
+def guardRefIds (rs : List Int) (r : Except Err Table) : Except Err Table :=
+  match r with
+  | .ok t => if refIdsOk rs then .ok t else .error .overflowError
+  | .error e => .error e
+
+def matSymmetric (mat : List Int) : Bool :=
+  (List.range (matDim mat)).all fun i => (List.range (matDim mat)).all fun j =>
+    mat[i * matDim mat + j]? == mat[j * matDim mat + i]?
+
+/-- `ScoreThresholdRule(matrix, threshold)`: the threshold is a C `int32` argument, the matrix must be symmetric. -/
+def ruleCtor (mat : List Int) (thr : Int) : Except Err Unit :=
+  if thr < -(2 : Int) ^ 31 ∨ thr ≥ (2 : Int) ^ 31 then .error .overflowError
+  else if ! matSymmetric mat then .error .valueError
+  else .ok ()
+
+/-- `rule.similar_kmers(kmer_alphabet, kmer)` with all its refusals, as a sorted-independent list. -/
+def similarKmersChecked (a : KAlph) (mat : List Int) (thr : Int) (q : Nat) : Except Err (List Nat) :=
+  match ruleCtor mat thr with
+  | .error e => .error e
+  | .ok _ =>
+    if ! ruleCompatible a mat then .error .valueError
+    else if q ≥ a.size then .error .alphabetError
+    else .ok (bbSim a mat thr q)
+
+/-- `match(sequence, similarity_rule=ScoreThresholdRule(mat, thr), ignore_mask)`: the rule is built first; an
+incompatible matrix is only noticed when the rule is consulted, i.e. for the first unmasked query k-mer. -/
+def matchSeqRule (t : Table) (mat : List Int) (thr : Int) (seq : List Nat) (mask : Option (List Bool)) :
+    Except Err (List (Nat × Nat × Nat)) :=
+  match ruleCtor mat thr with
+  | .error e => .error e
+  | .ok _ =>
+    if seq.length < t.alph.k then .error .valueError else
+    match createKmers t.alph seq with
+    | .error e => .error e
+    | .ok qk => match prepareMask t.alph mask seq.length with
+      | .error e => .error e
+      | .ok qm =>
+        if ! ruleCompatible t.alph mat && ((qk.zip qm).any fun x => x.2) then .error .valueError
+        else .ok (matchKmersSim (scoreSim t.alph mat thr) t qk qm)
+
+/-- `self.match_table(other, similarity_rule=…)`: the rule is consulted for every stored k-mer of `other`. -/
+def matchTableRule (t o : Table) (mat : List Int) (thr : Int) : Except Err (List (Nat × Nat × Nat × Nat)) :=
+  match ruleCtor mat thr with
+  | .error e => .error e
+  | .ok _ =>
+    match matchTableSim (scoreSim t.alph mat thr) t o with
+    | .error e => .error e
+    | .ok l => if ! ruleCompatible t.alph mat && ! (contents o).isEmpty then .error .valueError else .ok l
+
+/-- `FrequencyPermutation(kmer_alphabet, counts)` refuses a count array of the wrong length. -/
+def Perm.ctorOk (p : Perm) (size : Nat) : Bool :=
+  match p with
+  | .freq counts => counts.length == size
+  | _ => true
+
 end BiotiteModel.C10
